@@ -669,9 +669,21 @@ def gen_mesh(rng):
     times = sorted({rng.randint(-2, 30) for _ in range(rng.choice((0, 1, 1, 3)))})
     if rng.random() < 0.3:
         times.reverse()
+    held: Dict[str, Any] = {}  # a bone often HOLDS its pose from one time block to the next (static root bones)
+    hold_p = rng.choice((0.0, 0.5, 1.0))
     for t in times:
-        anim[t] = [BoneFrame(b, Vec(d6(-100, 100), d6(-100, 100), d6(-100, 100)), rot())
-                   for b in order if rng.random() < 0.8]
+        frames = []
+        for b in order:
+            if rng.random() >= 0.8:
+                continue
+            if b.name in held and rng.random() < hold_p:
+                pos, ang = held[b.name]
+                frames.append(BoneFrame(b, pos.copy(), ang.copy()))
+            else:
+                pos, ang = Vec(d6(-100, 100), d6(-100, 100), d6(-100, 100)), rot()
+                held[b.name] = (pos.copy(), ang.copy())
+                frames.append(BoneFrame(b, pos, ang))
+        anim[t] = frames
 
     def mat() -> str:
         # RULE: the reader drops a file extension and trailing slashes/blanks, treats "end" as the terminator and
